@@ -243,6 +243,12 @@ func runBlock(sc SweepCase, vals []rune) error {
 					if sc.Path == "lastcol" && x != sweepW-1 {
 						continue
 					}
+					if r.Caps.AMTrick && y == sweepH-1 && (x == sweepW-3 || x == sweepW-2) && shadow.RuneWidth(vals[i]) == 2 {
+						// known finding C01-amtrick-wide-rune-at-corner: excluded by
+						// construction so that the rest of the page is still decided
+						pbt.Excluded(knownWideCorner)
+						break // bottom row: the rune opens the next page instead
+					}
 					if _, err := r.Apply(tsrun.Op{Kind: "set", X: x, Y: y, R: vals[i]}); err != nil {
 						return err
 					}
